@@ -5,6 +5,7 @@ import (
 	"go/constant"
 	"go/token"
 	"go/types"
+	"sort"
 	"strings"
 
 	"golang.org/x/tools/go/ssa"
@@ -460,6 +461,171 @@ func impliesNonZeroUnsigned(rel string, k int64) bool {
 		return k >= 1
 	case "==":
 		return k != 0
+	}
+	return false
+}
+
+// ---------- path-sensitive nil-ness (finite enumeration) ----------
+
+// nilCond evaluates a branch condition that is a boolean combination of nil comparisons under an assignment of
+// nil-ness to pointer values: 1 true, 0 false, -1 unknown.
+func nilCond(c ssa.Value, asg map[ssa.Value]bool) int {
+	switch x := c.(type) {
+	case *ssa.UnOp:
+		if x.Op == token.NOT {
+			if r := nilCond(x.X, asg); r >= 0 {
+				return 1 - r
+			}
+		}
+	case *ssa.BinOp:
+		if x.Op != token.EQL && x.Op != token.NEQ {
+			return -1
+		}
+		var ptr ssa.Value
+		if isNilConst(x.Y) {
+			ptr = x.X
+		} else if isNilConst(x.X) {
+			ptr = x.Y
+		}
+		if ptr != nil {
+			isNil, known := asg[ptr]
+			if !known {
+				return -1
+			}
+			if (x.Op == token.EQL) == isNil {
+				return 1
+			}
+			return 0
+		}
+		if b, ok := x.X.Type().Underlying().(*types.Basic); ok && b.Kind() == types.Bool {
+			l, r := nilCond(x.X, asg), nilCond(x.Y, asg)
+			if l < 0 || r < 0 {
+				return -1
+			}
+			if (x.Op == token.EQL) == (l == r) {
+				return 1
+			}
+			return 0
+		}
+	case *ssa.Const:
+		if x.Value != nil && x.Value.Kind() == constant.Bool {
+			if constant.BoolVal(x.Value) {
+				return 1
+			}
+			return 0
+		}
+	}
+	return -1
+}
+
+func nilAtoms(c ssa.Value, out map[ssa.Value]bool) {
+	switch x := c.(type) {
+	case *ssa.UnOp:
+		if x.Op == token.NOT {
+			nilAtoms(x.X, out)
+		}
+	case *ssa.BinOp:
+		if x.Op != token.EQL && x.Op != token.NEQ {
+			return
+		}
+		if isNilConst(x.Y) {
+			out[x.X] = true
+		} else if isNilConst(x.X) {
+			out[x.Y] = true
+		} else {
+			nilAtoms(x.X, out)
+			nilAtoms(x.Y, out)
+		}
+	}
+}
+
+// nilPathFeasible: can `at` be reached from the definition of v while v (and everything in alsoNil) is nil, when branch
+// conditions built from nil comparisons are evaluated under every assignment of nil-ness to the compared pointers?
+// Paths that re-enter the block defining v are cut (a new instance of v). Conservative: unknown conditions take both edges.
+func nilPathFeasible(fn *ssa.Function, v ssa.Value, alsoNil []ssa.Value, at ssa.Instruction) bool {
+	def, ok := v.(ssa.Instruction)
+	if !ok || def.Block() == nil {
+		return true
+	}
+	atoms := map[ssa.Value]bool{}
+	for _, b := range fn.Blocks {
+		if iff, ok := b.Instrs[len(b.Instrs)-1].(*ssa.If); ok {
+			nilAtoms(iff.Cond, atoms)
+		}
+	}
+	delete(atoms, v)
+	for _, a := range alsoNil {
+		delete(atoms, a)
+	}
+	var free []ssa.Value
+	for a := range atoms {
+		// a pointer defined in a loop that does not contain v's definition may change between the definition and the use
+		free = append(free, a)
+	}
+	if len(free) > 10 {
+		return true
+	}
+	sort.Slice(free, func(i, j int) bool { return free[i].Name() < free[j].Name() })
+	for m := 0; m < 1<<len(free); m++ {
+		asg := map[ssa.Value]bool{v: true}
+		for _, a := range alsoNil {
+			asg[a] = true
+		}
+		for i, a := range free {
+			// FieldAddr / Alloc results are never nil
+			switch a.(type) {
+			case *ssa.FieldAddr, *ssa.Alloc, *ssa.IndexAddr, *ssa.MakeInterface:
+				asg[a] = false
+				continue
+			}
+			asg[a] = m&(1<<i) != 0
+		}
+		seen := map[*ssa.BasicBlock]bool{}
+		work := []*ssa.BasicBlock{}
+		push := func(b *ssa.BasicBlock) {
+			if b != def.Block() && !seen[b] {
+				seen[b] = true
+				work = append(work, b)
+			}
+		}
+		succs := func(b *ssa.BasicBlock) {
+			if theProg != nil && theProg.info(fn).cutAt[b] >= 0 {
+				return
+			}
+			if iff, ok := b.Instrs[len(b.Instrs)-1].(*ssa.If); ok {
+				switch nilCond(iff.Cond, asg) {
+				case 1:
+					push(b.Succs[0])
+					return
+				case 0:
+					push(b.Succs[1])
+					return
+				}
+			}
+			for _, s := range b.Succs {
+				push(s)
+			}
+		}
+		if at.Block() == def.Block() {
+			// same block: reached if `at` comes after the definition
+			for _, ins := range def.Block().Instrs {
+				if ins == def {
+					return true
+				}
+				if ins == at {
+					break
+				}
+			}
+		}
+		succs(def.Block())
+		for len(work) > 0 {
+			b := work[len(work)-1]
+			work = work[:len(work)-1]
+			if b == at.Block() {
+				return true
+			}
+			succs(b)
+		}
 	}
 	return false
 }
